@@ -359,9 +359,7 @@ def witness_case(task, cover):
 
 def witness_agrees(task, cover, engine, obs):
     eo = dict(cover["inputs"].get("__observed__", {}))
-    if any(w.get("opaque") for w in eo.get("W", [])):
-        for k in ("W", "EV", "st", "was_active", "nout", "J_out"):
-            eo.pop(k, None)
+    sc.drop_resend_predictions(eo)
     bad = sc.conn_agrees(eo, obs)
     if bad:
         obs["mismatch"] = bad
@@ -417,17 +415,21 @@ FUNCS = [CONN + "." + f for f in ("heartbeat_timer_task", "send_test_req", "_pro
 TASKS = [
     Task("tick", tick_harness, tick_cfg(), [CONN + ".heartbeat_timer_task", CONN + ".send_test_req"], native="conn"),
     Task("send_test_req", send_test_req_harness, sc.session_cfg(), [CONN + ".send_test_req"], native="conn"),
-    Task("reply_testrequest", reply_harness("1"), ic.pm_cfg(), [CONN + "._process_testrequest"], native="conn",
+    Task("reply_testrequest", reply_harness("1"), ic.pm_cfg(ic.RESEND_NEEDS["C12"]), [CONN + "._process_testrequest"], native="conn",
          timeout_ms=20000),
-    Task("reply_heartbeat", reply_harness("0"), ic.pm_cfg(), [CONN + "._process_heartbeat"], native="conn",
+    Task("reply_heartbeat", reply_harness("0"), ic.pm_cfg(ic.RESEND_NEEDS["C12"]), [CONN + "._process_heartbeat"], native="conn",
          timeout_ms=20000),
-    Task("reply_testrequest[twice]", reply_twice_harness, ic.pm_cfg(), [CONN + "._process_testrequest"], native="conn",
+    Task("reply_testrequest[twice]", reply_twice_harness, ic.pm_cfg(ic.RESEND_NEEDS["C12"]), [CONN + "._process_testrequest"], native="conn",
          timeout_ms=20000),
-    Task("inbound_keeps_pending", pending_kept_harness, ic.pm_cfg(), [CONN + "._process_message"], native="conn",
+    Task("inbound_keeps_pending", pending_kept_harness, ic.pm_cfg(ic.RESEND_NEEDS["C12"]), [CONN + "._process_message"], native="conn",
          timeout_ms=20000),
     Task("lemmas", lemma_harness, Config, []),
     Task("mustfail", tick_mustfail, tick_cfg(), [], expect_refuted=True),
 ]
+import C06_resend as _c06  # noqa: E402
+# the callee contract of _process_resend used by the reply / inbound tasks (heartbeat bookkeeping kept) is a proved
+# over-approximation of the real body
+TASKS.insert(len(TASKS) - 1, _c06.refinement_task(ic.RESEND_NEEDS["C12"], ic.RESEND_INV["C12"]))
 
 PROPERTY = Property(
     "C12", TASKS,
